@@ -138,6 +138,7 @@ class Item:
         self.file, self.path, self.tpl, self.line = file, path, tpl, line
         self.kind = "fn"
         self.props, self.safety = [], ["C02"]
+        self.vacuous = None
         self.sig, self.spec = [], []
         self.closures, self.loops, self.edits = {}, {}, []
         self.prologue = []
@@ -216,6 +217,10 @@ def read_template(unit):
                                 it.props = t2[1:]
                             elif d2 == "safety":
                                 it.safety = t2[1:]
+                            elif d2 == "unreachable-by-contract":
+                                # the trait-level precondition is false for this impl (e.g. RuntimeCore::set_global, whose body is
+                                # `unreachable!`): the function is proved never callable, so `ensures false` verifies by design
+                                it.vacuous = " ".join(t2[1:]) or "precondition is unsatisfiable for this impl"
                             elif d2 == "sig":
                                 cur = it.sig
                                 r = s2[3:].strip()[3:].strip()
@@ -382,7 +387,7 @@ def assemble(unit, canary=False, mutant=None, check_fp=True):
                 raise Undecided(f"mutant lost item {it.path}")
             x = cands[it.nth]
             src = msrc
-        info = {"id": it.id, "file": it.file, "path": it.path, "kind": it.kind, "props": it.props, "safety": it.safety,
+        info = {"id": it.id, "file": it.file, "path": it.path, "kind": it.kind, "props": it.props, "safety": it.safety, "vacuous": it.vacuous,
                 "tpl": it.tpl, "tpl_line": it.line, "repo_line": byte_line(src, x["start"])}
         if it.kind in ("struct", "enum"):
             if x["kind"] != it.kind:
@@ -815,9 +820,10 @@ def verify_unit(unit, seed=0, rlimit=None, do_canary=True, mutant=None):
                         if i in rd:
                             failed_items.add(i)
                 cundec += can["undecided"]
-        fn_items = [i["id"] for i in A.items if i["kind"] == "fn"]
+        exempt = [i["id"] for i in A.items if i["kind"] == "fn" and i.get("vacuous")]
+        fn_items = [i["id"] for i in A.items if i["kind"] == "fn" and not i.get("vacuous")]
         vac = [i for i in fn_items if i not in failed_items]
-        r["canary"] = {"functions": len(fn_items), "rejected": len(fn_items) - len(vac), "vacuous": vac,
+        r["canary"] = {"functions": len(fn_items), "rejected": len(fn_items) - len(vac), "vacuous": vac, "unreachable_by_contract": exempt,
                        "rounds": len(rounds), "undecided": cundec, "wall": round(cwall, 2)}
         if vac:
             an["undecided"].append("vacuity canary: `ensures false` verified for " + ", ".join(vac[:4]) + (f" (+{len(vac) - 4} more)" if len(vac) > 4 else ""))
